@@ -250,6 +250,11 @@ def order_cases(rng, quick):
             f2 = [0] * (deg + 1)
             for i, c in enumerate(g2): f2[2 * i] = c
             items.append((f2, [Id('sg'), f2, [0, 0, 1]], power_basis(f2, [F(0), F(0), F(1)]), 'Z[alpha]:subfield'))
+        if deg >= 3:
+            # theta = alpha + (higher terms): NOT the generator alpha itself although its coefficient vector starts with (0, 1)
+            for te in ([F(0), F(1), F(2)], [F(0), F(1), F(1, 2)], [F(0), F(1)] + [F(0)] * (deg - 3) + [F(-1)]):
+                te = te[:deg]
+                if len(te) >= 3 and any(te[2:]): items.append((f, [Id('sg'), f, te], power_basis(f, te), 'Z[alpha]:alpha-plus-higher'))
         if deg in (3, 4, 5):
             # generators whose successive powers DROP in degree (theta = alpha^(deg-1) in Q[x]/(x^deg - c): degrees deg-1, deg-2, ..;
             # theta = alpha^2 + 2t alpha - 2t^2 in Q[x]/(x^3 - c): theta^2 is linear): a row buffer reused across powers shows here
